@@ -495,7 +495,7 @@ func (c *converter) syncIngressHTTP(source *annotations.Source, ing *networking.
 			tlsAcme = strings.ToLower(annHost[ingtypes.HostCertSigner]) == "acme"
 		}
 		if tlsAcme {
-			if tls.SecretName != "" {
+			if tls.SecretName != "" && len(tls.Hosts) > 0 {
 				secretName := ing.Namespace + "/" + tls.SecretName
 				ingName := ing.Namespace + "/" + ing.Name
 				acmeStorage := c.haproxy.AcmeData().Storages().Acquire(secretName)
@@ -506,6 +506,8 @@ func (c *converter) syncIngressHTTP(source *annotations.Source, ing *networking.
 					}
 				}
 				c.tracker.TrackNames(convtypes.ResourceIngress, ingName, convtypes.ResourceAcmeData, secretName)
+			} else if tls.SecretName != "" {
+				c.logger.Warn("skipping cert signer of %v: secret '%s' has no hostname", source, tls.SecretName)
 			} else {
 				c.logger.Warn("skipping cert signer of %v: missing secret name", source)
 			}
